@@ -8,6 +8,9 @@ mod token;
 mod term;
 mod de_bruijn;
 mod evaluator;
+mod normalizer;
+mod equality;
+mod unifier;
 mod parser;
 mod reference;
 mod grammar;
@@ -223,6 +226,80 @@ fn case(target: &str, rng: &mut Rng) -> Option<(String, String, String, usize)> 
             // with holes the code may also make a silent step that only replaces a resolved hole (same view)
             let silent = has_hole(&real_t) && got.as_ref() == Some(&t);
             if got != want && !silent { return Some((format!("step({}){tag}", reference::show(&t)), opt(&got), opt(&want), size(&t))); }
+        }
+        _ => {}
+    }
+    None
+}
+
+// ---- C06: the real normaliser / syntactic equality / conversion check against the reference ------------------
+fn plain_ctx() -> Vec<Option<(Rc<Term<'static>>, usize)>> { (0..8).map(|_| None).collect() }
+
+// a variant of t that is often, but not always, equal to it up to erasure
+fn perturb(t: &R, rng: &mut Rng) -> R {
+    match t {
+        R::Var(i) => if rng.below(12) == 0 { R::Var((*i + 1) % 4) } else { t.clone() },
+        R::Node(k, kids) => {
+            let n = kids.len();
+            let mut out: Vec<R> = kids.iter().enumerate().map(|(i, c)| {
+                let erased = (matches!(k, K::Lambda(_)) && i == 0) || (*k == K::Let && i < (n - 1) / 2);
+                if erased && rng.below(2) == 0 { gen_term(rng, 1, 2) } else { perturb(c, rng) }
+            }).collect();
+            let k2 = match k {
+                K::Lit(x) if rng.below(8) == 0 => K::Lit(-x.clone()),
+                K::Lambda(i) if rng.below(10) == 0 => K::Lambda(!*i),
+                K::Pi(i) if rng.below(10) == 0 => K::Pi(!*i),
+                K::Sum if rng.below(12) == 0 => K::Difference,
+                K::Ge if rng.below(6) == 0 => K::Gt,
+                other => other.clone(),
+            };
+            if *k == K::Let && n >= 3 && rng.below(8) == 0 {
+                // drop the last definition (groups of different size)
+                let m = (n - 1) / 2;
+                out.remove(2 * m - 1);
+                out.remove(m - 1);
+            }
+            R::Node(k2, out)
+        }
+    }
+}
+
+fn case_conv(target: &str, rng: &mut Rng) -> Option<(String, String, String, usize)> {
+    let depth = 1 + rng.below(3) as u32;
+    let t = gen_term(rng, depth, 2);
+    let plain_t = from_r(&t);
+    let holey = rng.below(4) == 0;
+    let real_t = if holey { add_holes(&plain_t, rng) } else { plain_t };
+    let tag = if has_hole(&real_t) { " [some subterms wrapped in resolved holes]" } else { "" };
+    match target {
+        "normalize_weak_head" => {
+            let mut fuel = 400u32;
+            let want = reference::r_whnf(&t, &mut fuel)?;   // skipped when the reference runs out of fuel (possible divergence)
+            let mut ctx = plain_ctx();
+            let got = to_r(&normalizer::normalize_weak_head(&real_t, &mut ctx));
+            if ctx.len() != 8 || ctx.iter().any(|e| e.is_some()) { return Some((format!("normalize_weak_head({}) under 8 plain context entries{tag}", reference::show(&t)), format!("context of length {}", ctx.len()), "context unchanged".to_owned(), size(&t))); }
+            if got != want { return Some((format!("normalize_weak_head({}) under 8 plain context entries{tag}", reference::show(&t)), reference::show(&got), reference::show(&want), size(&t))); }
+        }
+        "syntactically_equal" => {
+            let t2 = if rng.below(4) == 0 { gen_term(rng, depth, 2) } else { perturb(&t, rng) };
+            let real_t2 = from_r(&t2);
+            let want = reference::r_erase(&t) == reference::r_erase(&t2);
+            let got = equality::syntactically_equal(&real_t, &real_t2);
+            if got != want { return Some((format!("syntactically_equal({}, {}){tag}", reference::show(&t), reference::show(&t2)), format!("{got}"), format!("{want} (equality of the views with annotations erased)"), size(&t) + size(&t2))); }
+        }
+        "unify" => {
+            let t2 = if rng.below(5) == 0 { t.clone() } else if rng.below(4) == 0 { gen_term(rng, depth, 2) } else { perturb(&t, rng) };
+            let real_t2 = from_r(&t2);
+            let (mut f1, mut f2) = (600u32, 600u32);
+            let n1 = reference::r_nf(&t, &mut f1)?;        // both must have a normal form within the fuel, otherwise skipped
+            let n2 = reference::r_nf(&t2, &mut f2)?;
+            let mut ctx = plain_ctx();
+            let got = unifier::unify(&real_t, &real_t2, &mut ctx);
+            let input = format!("unify({}, {}) under 8 plain context entries{tag}", reference::show(&t), reference::show(&t2));
+            if ctx.len() != 8 || ctx.iter().any(|e| e.is_some()) { return Some((input, format!("{got}, context of length {}", ctx.len()), "context unchanged".to_owned(), size(&t) + size(&t2))); }
+            let same_nf = reference::r_erase(&n1) == reference::r_erase(&n2);
+            if got && !same_nf { return Some((input, "true".to_owned(), format!("normal forms differ: {} vs {}", reference::show(&n1), reference::show(&n2)), size(&t) + size(&t2))); }
+            if !got && reference::r_erase(&t) == reference::r_erase(&t2) { return Some((input, "false".to_owned(), "true (the two terms are equal up to erasure)".to_owned(), size(&t) + size(&t2))); }
         }
         _ => {}
     }
@@ -510,7 +587,7 @@ fn main() {
         let t = target.clone();
         let r = panic::catch_unwind(panic::AssertUnwindSafe(|| {
             let mut local = Rng(snapshot.0);
-            let out = if t == "resolve" { case_resolve(&mut local) } else if t == "pipeline" { case_pipeline(grammar.as_ref().unwrap(), &mut local) } else if t.starts_with("packrat") { case_packrat(grammar.as_ref().unwrap(), &mut local, t == "packrat_complete") } else if t.starts_with("reassociate") { case_parser(&t, &mut local) } else { case(&t, &mut local) };
+            let out = if t == "resolve" { case_resolve(&mut local) } else if t == "pipeline" { case_pipeline(grammar.as_ref().unwrap(), &mut local) } else if t.starts_with("packrat") { case_packrat(grammar.as_ref().unwrap(), &mut local, t == "packrat_complete") } else if t.starts_with("reassociate") { case_parser(&t, &mut local) } else if t == "normalize_weak_head" || t == "syntactically_equal" || t == "unify" { case_conv(&t, &mut local) } else { case(&t, &mut local) };
             (out, local.0)
         }));
         match r {
